@@ -37,20 +37,83 @@ fn gcd(a: i64, b: i64) -> i64 {
     }
 }
 
+/// Doubles on an integer scale that is monotone in the real order (both zeros at 0): the difference of two
+/// images is their distance in units in the last place.
+pub fn ordered(f: f64) -> i64 {
+    if f == 0.0 {
+        return 0;
+    }
+    let b = (f.to_bits() & 0x7FFF_FFFF_FFFF_FFFF) as i64;
+    if f < 0.0 {
+        -b
+    } else {
+        b
+    }
+}
+
+pub fn from_ordered(o: i64) -> f64 {
+    if o < 0 {
+        -f64::from_bits((-o) as u64)
+    } else {
+        f64::from_bits(o as u64)
+    }
+}
+
+pub const INEXACT: i64 = 9999;
+
+/// The tagged number for the double `f` recognised as (a neighbour of) p/q: JValue.tla "Neighbouring doubles".
+fn near_tagged(f: f64, p: i64, q: i64) -> Value {
+    let base = (p as f64) / (q as f64);
+    let d = ordered(f).wrapping_sub(ordered(base));
+    if d == 0 {
+        json!({"t":"num","p":p,"q":q})
+    } else if d.abs() <= 1000 && base != 0.0 {
+        json!({"t":"num","p":p,"q":q,"u":d})
+    } else {
+        json!({"t":"num","p":p,"q":q,"u":INEXACT})
+    }
+}
+
+/// JValue.tla "Large magnitudes": digits * 10^exp10 as [p, q = 1, e] when it has at most 9 significant digits and is >= 10^10.
+fn big_tagged(neg: bool, digits: &str, exp10: i64) -> Option<Value> {
+    let t = digits.trim_start_matches('0');
+    let sig = t.trim_end_matches('0');
+    let e = exp10 + (t.len() - sig.len()) as i64;
+    if sig.is_empty() || sig.len() > 9 || e < 1 || (sig.len() as i64) + e < 11 || e > 40 {
+        return None;
+    }
+    let p: i64 = sig.parse().ok()?;
+    Some(json!({"t":"num","p":if neg { -p } else { p },"q":1,"e":e}))
+}
+
 /// A number as a tagged value: small rationals exactly, everything else outside the modelled domain.
 pub fn num_to_tagged(n: &Number) -> Value {
     if let Some(i) = n.as_i64() {
         if i.unsigned_abs() <= i32::MAX as u64 {
             return json!({"t":"num","p":i,"q":1});
         }
-        return json!({"t":"num","big":i.to_string()});
+        return big_tagged(i < 0, &i.unsigned_abs().to_string(), 0).unwrap_or_else(|| json!({"t":"num","big":i.to_string()}));
     }
     if let Some(u) = n.as_u64() {
-        return json!({"t":"num","big":u.to_string()});
+        return big_tagged(false, &u.to_string(), 0).unwrap_or_else(|| json!({"t":"num","big":u.to_string()}));
     }
     let f = n.as_f64().unwrap_or(f64::NAN);
     if !f.is_finite() {
         return json!({"t":"num","f":format!("{}", f)});
+    }
+    if f.abs() >= 1e10 {
+        // shortest round-trip digits of the double: d.ddd e X
+        let sci = format!("{:e}", f.abs());
+        if let Some((mant, exp)) = sci.split_once('e') {
+            let digits: String = mant.chars().filter(|c| c.is_ascii_digit()).collect();
+            let frac = mant.split_once('.').map(|(_, fr)| fr.len()).unwrap_or(0) as i64;
+            if let Ok(x) = exp.parse::<i64>() {
+                if let Some(t) = big_tagged(f < 0.0, &digits, x - frac) {
+                    return t;
+                }
+            }
+        }
+        return json!({"t":"num","f":format!("{:?}", f)});
     }
     // continued-fraction expansion: the simplest rational within the tolerance, denominator up to 10^6
     let (mut h0, mut h1, mut k0, mut k1) = (0i64, 1i64, 1i64, 0i64);
@@ -72,7 +135,7 @@ pub fn num_to_tagged(n: &Number) -> Value {
         if (approx - f).abs() <= 1e-15 + 1e-13 * f.abs() {
             let g = gcd(h1, k1).max(1);
             let (p, q) = if k1 < 0 { (-h1 / g, -k1 / g) } else { (h1 / g, k1 / g) };
-            return json!({"t":"num","p":p,"q":q});
+            return near_tagged(f, p, q);
         }
         let frac = x - a;
         if frac.abs() < 1e-18 {
@@ -111,7 +174,13 @@ pub fn tagged_to_json(t: &Value) -> Result<Value, String> {
             } else {
                 let p = t["p"].as_i64().ok_or("num.p")?;
                 let q = t["q"].as_i64().ok_or("num.q")?;
-                if q == 1 {
+                let u = t.get("u").and_then(|x| x.as_i64()).unwrap_or(0);
+                let e = t.get("e").and_then(|x| x.as_i64()).unwrap_or(0);
+                if e != 0 {
+                    serde_json::from_str::<Value>(&format!("{}e{}", p, e)).map_err(|e| e.to_string())?
+                } else if u != 0 {
+                    json!(from_ordered(ordered((p as f64) / (q as f64)) + u))
+                } else if q == 1 {
                     json!(p)
                 } else {
                     json!((p as f64) / (q as f64))
@@ -133,8 +202,33 @@ pub fn tagged_to_json(t: &Value) -> Result<Value, String> {
     })
 }
 
+fn has_near(t: &Value) -> bool {
+    match t.get("t").and_then(|x| x.as_str()) {
+        Some("num") => t.get("u").and_then(|x| x.as_i64()).unwrap_or(0) != 0,
+        Some("arr") => t["a"].as_array().map(|a| a.iter().any(has_near)).unwrap_or(false),
+        Some("obj") => t["o"].as_array().map(|a| a.iter().any(|kv| has_near(&kv["v"]))).unwrap_or(false),
+        _ => false,
+    }
+}
+
+/// Builds the library value node by node (no JSON text in between): used for documents that hold neighbouring doubles,
+/// whose 17-digit spellings the JSON parser may legitimately move by a unit in the last place (C08).
+fn json_to_var_direct(j: &Value) -> Rcvar {
+    Rcvar::new(match j {
+        Value::Null => Variable::Null,
+        Value::Bool(b) => Variable::Bool(*b),
+        Value::Number(n) => Variable::Number(n.clone()),
+        Value::String(s) => Variable::String(s.clone()),
+        Value::Array(a) => Variable::Array(a.iter().map(json_to_var_direct).collect()),
+        Value::Object(m) => Variable::Object(m.iter().map(|(k, v)| (k.clone(), json_to_var_direct(v))).collect()),
+    })
+}
+
 pub fn tagged_to_var(t: &Value) -> Result<Rcvar, String> {
     let j = tagged_to_json(t)?;
+    if has_near(t) {
+        return Ok(json_to_var_direct(&j));
+    }
     let text = serde_json::to_string(&j).map_err(|e| e.to_string())?;
     Variable::from_json(&text).map(Rcvar::new)
 }
@@ -242,6 +336,9 @@ pub fn err_to_json(e: &JmespathError, text: &str) -> Value {
                 RuntimeError::UnknownFunction(_) => "unknown_function",
                 RuntimeError::InvalidType { .. } => "invalid_type",
                 RuntimeError::InvalidReturnType { .. } => "invalid_return_type",
+                // an error kind this harness does not know (added to the library later): recorded as such, judged by the specification
+                #[allow(unreachable_patterns)]
+                _ => "other_runtime_error",
             },
             match r {
                 RuntimeError::TooManyArguments { expected, actual } | RuntimeError::NotEnoughArguments { expected, actual } => {
